@@ -78,11 +78,11 @@ Print Assumptions C02_tie_handle_pubrec.
    output queue and a transport that ACCEPTS writes, REFUSES them (BlockingIOError) or FAILS HARD (OSError: the
    connection is torn down inside the write) are modelled; events distinguish a packet
    HANDED to the connection from a packet WRITTEN; reconnect() drops what is still queued.
-   [no_fail ops]: the history contains no hard write failure ([OTransport TFail]). *)
+   Every theorem below quantifies over ALL conforming histories, hard write failures included. *)
 From PahoV Require Import Session2.Model Session2.Check Session2.Statements Session2.C02Proofs.
 
 (* no written PUBLISH after PUBREC; DUP = 1 when an earlier connection wrote the PUBLISH, DUP = 0 when it was never handed over before, either value when it was handed over but never written; PUBREL handed over in the operation of every accepting CONNECT acknowledgement *)
 Theorem C02_with_blocking_transport : forall c ops,
-  cfg_ok c = true -> conforming c ops = true -> no_fail ops = true -> c02_ok c (optrace c ops) = true.
-Proof. exact c02_calm_proved. Qed.
+  cfg_ok c = true -> conforming c ops = true -> c02_ok c (optrace c ops) = true.
+Proof. exact c02_proved. Qed.
 Print Assumptions C02_with_blocking_transport.
